@@ -402,13 +402,24 @@ TErrKnown ==
   /\ kf' = kf \cup {"C09-b"}
   /\ UNCHANGED <<pts, nodeOf, free, next, count, fault>> /\ Env /\ VersKeep
 
+\* Known finding C09-c, second face: the stale shared cache object (see KFStale) is attached by a later
+\* search, which meets a node that its own snapshot does not have and fails, although no commit overlaps it.
+\* Signature: an error "does not exist / not found" of a ranking search inside a forced-schedule behaviour in
+\* which the driver saw such an attach (risk = 1), shared cache on.
+TErrKnownStale ==
+  /\ IsEvent("Err")
+  /\ "C09-c" \in KnownFindings
+  /\ E.what = "ConcurrentSearch/rank" /\ "risk" \in DOMAIN E /\ E.risk = 1 /\ E.nx = 1 /\ csz # 0 /\ mem = 0
+  /\ kf' = kf \cup {"C09-c"}
+  /\ UNCHANGED <<pts, nodeOf, free, next, count, fault>> /\ Env /\ VersKeep
+
 \* environment steps with no effect on the abstract state (reopen, evict,
 \* switch to a cold copy): the model says nothing may change
 TQuiet == IsEvent("Quiet") /\ Obs
 
 TraceNext ==
   \/ TReset \/ TFault \/ TInsert \/ TInsertRace \/ TWriteRace \/ TUpdate \/ TDelete \/ TFork \/ TRestore \/ TCrash
-  \/ TCount \/ TGet \/ TFilter \/ TFlat \/ TVamana \/ TVamanaPair \/ TFlatPair \/ TCSearch \/ TErrKnown \/ TText \/ TTextRepeat \/ TGraph \/ TQuiet
+  \/ TCount \/ TGet \/ TFilter \/ TFlat \/ TVamana \/ TVamanaPair \/ TFlatPair \/ TCSearch \/ TErrKnown \/ TErrKnownStale \/ TText \/ TTextRepeat \/ TGraph \/ TQuiet
 
 TraceSpec == TraceInit /\ [][TraceNext]_vars
 
